@@ -250,6 +250,9 @@ func candidates(expected *big.Int) []*big.Int {
 }
 
 func (h *hist) inferSeq(ct, aad []byte, expected *big.Int) *big.Int {
+	if _, err := h.trial.Open(nil, ref.NonceFor(h.ms.BaseNonce, expected), ct, aad); err == nil {
+		return new(big.Int).Set(expected)
+	}
 	for _, c := range candidates(expected) {
 		if _, err := h.trial.Open(nil, ref.NonceFor(h.ms.BaseNonce, c), ct, aad); err == nil {
 			return c
@@ -312,6 +315,9 @@ func (h *hist) payload() (pt, aad []byte) {
 
 // noteCarry counts the byte boundaries a successful increment crossed.
 func (h *hist) noteCarry(before *big.Int, who string) {
+	if w := before.Bits(); len(w) == 0 || byte(w[0]) != 0xFF {
+		return // low byte not 0xFF: the increment carries nowhere
+	}
 	for k := 1; k <= 11; k++ {
 		m := pow2(8 * k)
 		if new(big.Int).Mod(new(big.Int).Add(before, one), m).Sign() == 0 {
@@ -727,7 +733,7 @@ func TestVerifHistories(t *testing.T) {
 		"overflow:seal", "overflow:open", "restore", "restore:sealer", "restore:opener", "restore:twin-step", "cross-role-refused",
 		"export", "offline:seals-checked", "offline:opens-checked")
 	sts := starts()
-	per := lib.Scale(150, 15000)
+	per := lib.Scale(150, 7500)
 	type job struct {
 		aead uint16
 		st   start
